@@ -255,7 +255,7 @@ FamNaNF == <<
     PowN1, Bin("Power", x, N2), Bin("Power", N1, x), Bin("Subscript", x, N1),
     CmpN(x, Str("<"), N1), IfN(x, N1, z), CseN(N1, NoneV, EvalScope),
     Ch("Sum", << x, N1 >>), Ch("Sum", << x, N2 >>), CallN(ff, << N1 >>),
-    Un("LogicalNot", PowN1), Ch("Sum", << x, PowN1 >>) >>
+    Un("LogicalNot", PowN1), Ch("Sum", << y, PowN1 >>) >>
 FamNaNU == <<
     Bin("URoot", x, N1), Bin("URoot", x, N2), Bin("UPlain", x, N1), U3("UChild", x, N1, y),
     U3("ULegChild", x, y, N1), U3("ULegChild", x, N1, y), Bin("ULeg", x, N1), Bin("ULeg", x, N2),
@@ -263,7 +263,7 @@ FamNaNU == <<
 NaNSpecs == { FamNaNF[k] : k \in 1..Len(FamNaNF) } \cup { FamNaNU[k] : k \in 1..Len(FamNaNU) }
 \* quick tier: one per position kind
 NaNSpecsQuick == { PowN1, Bin("Power", N1, x), CmpN(x, Str("<"), N1), Ch("Sum", << x, N1 >>),
-                   Un("LogicalNot", PowN1), Ch("Sum", << x, PowN1 >>),
+                   Un("LogicalNot", PowN1), Ch("Sum", << y, PowN1 >>),
                    Bin("URoot", x, N1), Bin("UPlain", x, N1), U3("ULegChild", x, y, N1),
                    U3("ULegChild", x, N1, y), Bin("ULeg", x, N1) }
 
